@@ -7,7 +7,7 @@ from ..seams import stream
 from ..corpus import EXT, LANGS
 from .. import gen as G
 
-SEGS = ["a", "b", "ab", "a.b", "src", "a.py", "x", "deep"]
+SEGS = ["a", "b", "ab", "a.b", "src", "a.py", "x", "deep", "A", "Src", "B"]
 
 
 def gen(i, R, tier):
@@ -22,7 +22,7 @@ def gen(i, R, tier):
         depth = rng.choice((0, 1, 1, 2, 2, 3, 4, 5))
         d = "/".join(rng.choice(SEGS) for _ in range(depth))
         lang = rng.choice(LANGS)
-        p = (d + "/" if d else "") + rng.choice(("a", "b", "ab", "m")) + EXT[lang]
+        p = (d + "/" if d else "") + rng.choice(("a", "b", "ab", "m", "A", "M")) + EXT[lang]
         if any(q == p or q.startswith(p + "/") or p.startswith(q + "/") for q in placed):
             continue
         placed[p] = G.pick_content(rng, lang, 0.05, 0.4)
